@@ -190,6 +190,18 @@ CHECKS = {
             "Trusted: TLC; exact lane (log-odds integers, eps=0, non-tie thresholds) so float comparisons inside fimo are exact; "
             "p-values compared as integer tail counts.",
             "DESIGN.md §5 C12"),
+    "C13": (["TomtomSched", "TomtomSchedMC", "Tomtom_Trace"],
+            "step-shaped TLA+ model of threads x per-thread scratch regions x query histories (TomtomSched.tla) model-checked with "
+            "TLC over every assignment and interleaving (NoStaleRead, NoSharing, liveness; three spec-level mutants); the compiled "
+            "tomtom run under many thread counts / batch compositions / orders and validated by Tomtom_Trace (memo state, Select); "
+            "thorough tier: poison lane through the pure-Python bodies",
+            "TLC explores every way queries of different lengths can be assigned to and interleaved on the threads and shows that "
+            "every scratch region read was written for the current query. On the implementation every query's row must be "
+            "bit-identical to its solo single-thread run under 1..8 threads, permutations, subsets, duplicates, short-after-long "
+            "orders, reverse complement and column hashing; n_nearest must return the n smallest p-values ascending with matching "
+            "fields; the poison lane fills all scratch with NaN / 77 and requires unchanged results.",
+            "Trusted: TLC; numba's scheduler cannot be forced (the model covers every assignment); CRC32 of float64 bytes.",
+            "DESIGN.md §5 C13"),
 }
 
 ALL = ["C%02d" % i for i in range(1, 21)]
